@@ -267,9 +267,11 @@ def _r1(ctx):
     if base != SPECIES_SEQ and J.path(J.unfilter(base)[0]) != "network.species":
         ctx.unrec("R1", f"{fn}:species-loop", (PHYS, it[5]), f"the sum ranges over {J.show(base)}, not recognisably the species list")
         return
-    ctx.check(base == SPECIES_SEQ and it[7] is None, "R1", f"{fn}:species-loop", (PHYS, it[5]),
+    # (a loop filter `for .. in S if C` is the body under `{% if C %}`: it is judged with the term's guards below)
+    ctx.check(base == SPECIES_SEQ, "R1", f"{fn}:species-loop", (PHYS, it[5]),
               "the sum ranges over every entry of network.species, each paired with its own abundance symbol",
               expected="for spec in network.species (unfiltered)", found=J.show(itx) + (f" if {J.show(it[7])}" if it[7] else ""))
+    loop_filter = [("if+", J.expr_at(tree, it, it[7], env2))] if it[7] is not None else []
     # the term: the one output of the loop body that mentions the species (other outputs are layout)
     terms = []
     for x, env_, guards in J.scan(tree, it[3], env2):
@@ -293,8 +295,8 @@ def _r1(ctx):
               "each term is <count of this element in this species> * <this species' abundance> + ",
               expected=f"format({J.show(natom)}) ~ '*y[IDX_' ~ {J.show(svar)}.alias ~ '] + '",
               found=" ~ ".join(repr(p[1]) if p[0] == "lit" else J.show(p[-1]) for p in got))
-    tests = [(g[0], J.subst(J.inline_macros(tree, PHYS, g[1]), g[2])) for g in guards]
-    gok = len(tests) == 1 and tests[0] == ("if+", natom)
+    tests = loop_filter + [(g[0], J.subst(J.inline_macros(tree, PHYS, g[1]), g[2])) for g in guards]
+    gok = bool(tests) and all(t == ("if+", natom) for t in tests)
     ctx.check(gok, "R1", f"{fn}:term-guard", (PHYS, x[2]), "a term is skipped only when the count is zero/absent",
               found="; ".join(("" if k == "if+" else "not ") + J.show(t) for k, t in tests))
 
@@ -459,6 +461,7 @@ MUTANTS += [
     {"name": "element-count-get-of-other-key", "file": SPECIES, "old": "        if element in self.element_count.keys():\n            self.element_count[element] += count\n        else:\n            self.element_count[element] = count\n", "new": "        self.element_count[element] = self.element_count.get(self.name, 0) + count\n", "rules": ["R6"]},
     {"name": "abund-of-other-list", "file": PHYS, "old": "zip(network.species, specabund)", "new": "zip(network.species | sort(attribute='name'), specabund)", "rules": ["R1"]},
     {"name": "term-count-of-element-species", "file": PHYS, "old": '{{ "{:.1f}".format(natom) ~ "*" ~ ab ~ " + "}}', "new": '{{ "{:.1f}*{} + ".format(elem.element_count.get(elemname), ab) }}', "rules": ["R1"]},
+    {"name": "loop-filter-drops-ice", "file": PHYS, "old": "zip(network.species, specabund) -%}", "new": "zip(network.species, specabund) if not spec.is_surface -%}", "rules": ["R1"]},
     {"name": "macro-header-last-key", "file": MACROS, "old": "#define IDX_ELEM_{{ spec.element_count.keys() | first }} {{ loop.index0 }}", "new": "{% set sym = spec.element_count | last %}\n#define IDX_ELEM_{{ sym }} {{ loop.index0 }}", "rules": ["R1"]},
     {"name": "element-count-dict-update", "file": SPECIES, "old": "        if element in self.element_count.keys():\n            self.element_count[element] += count\n        else:\n            self.element_count[element] = count\n", "new": "        self.element_count.update({element: count})\n", "rules": ["R6"]},
     {"name": "element-count-overwrite", "file": SPECIES, "old": "        if element in self.element_count.keys():\n            self.element_count[element] += count\n        else:\n            self.element_count[element] = count\n", "new": "        self.element_count[element] = count\n", "rules": ["R6"]},
@@ -480,5 +483,9 @@ BENIGN = [
     {"name": "term-one-format-string", "file": PHYS, "old": '{{ "{:.1f}".format(natom) ~ "*" ~ ab ~ " + "}}', "new": '{{ "{:.1f}*{} + ".format(natom, ab) }}'},
     {"name": "guard-uses-set-name", "file": PHYS, "old": "if (elemidx == IDX_ELEM_{{ elem.element_count.keys() | first }}) {", "new": "if (elemidx == IDX_ELEM_{{ elemname }}) {"},
     {"name": "macro-header-set-name", "file": MACROS, "old": "#define IDX_ELEM_{{ spec.element_count.keys() | first }} {{ loop.index0 }}", "new": "{% set sym = spec.element_count | first %}\n#define IDX_ELEM_{{ sym }} {{ loop.index0 }}"},
+    {"name": "term-guard-as-loop-filter", "edits": [
+        {"file": PHYS, "old": "zip(network.species, specabund) -%}", "new": "zip(network.species, specabund) if spec.element_count.get(elemname) -%}"},
+        {"file": PHYS, "old": "               {% if natom -%}\n", "new": ""},
+        {"file": PHYS, "old": "               {%- endif %}\n", "new": ""}]},
     {"name": "eq-disjuncts-reordered", "file": SPECIES, "old": "                (self.is_electron and o.is_electron)\n                or (", "new": "                self.name == o.name\n                or (self.is_electron and o.is_electron)\n                or ("},
 ]
